@@ -120,7 +120,7 @@ pub fn op_strategy(p: &Profile) -> impl Strategy<Value = Op> {
     add(p.roundtrip, (prop_oneof![3 => Just(0u8), 1 => Just(1u8), 2 => Just(2u8), 1 => Just(3u8)], any::<u16>()).prop_map(|(what, sel)| Op::RoundTrip { what, sel }).boxed());
     add(p.recaps, (any::<u16>(), any::<u16>()).prop_map(|(enc, mpk)| Op::Recaps { enc, mpk }).boxed());
     add(p.stale, (0u8..6, any::<u16>(), any::<bool>()).prop_map(|(back, usk, keep)| Op::ProbeStale { back, usk, keep }).boxed());
-    add(p.forged, (any::<u16>(), 0u8..5, any::<bool>()).prop_map(|(usk, kind, keep)| Op::ProbeForged { usk, kind, keep }).boxed());
+    add(p.forged, (any::<u16>(), 0u8..7, any::<bool>()).prop_map(|(usk, kind, keep)| Op::ProbeForged { usk, kind, keep }).boxed());
     proptest::strategy::Union::new_weighted(alts)
 }
 
